@@ -23,6 +23,9 @@ def run(tier, seed):
                                                    durs=(0, 1, 2, 3, H)),
                  simulate=120 if q else 500, depth=800,
                  ticks=(1000, 7000, 1000000000) if q else (1000, 7000, 1000000, 1000000000)),
+            # directed common-timeout family: a persistent timer dispatched late, a newcomer on the same queue with a fresh clock
+            # reading, then single-iteration loop calls (the re-armed timer must fire at deadline + duration, ahead of the newcomer)
+            dict(name="C01_ct_late", consts=ec.consts({1, 3, 4}, {"initc", "addc", "adv", "loop", "ctpat"}, 8, durs=(2, 3, 4))),
             # directed heap family: every permutation of six distinct deadlines, delete one, add two, fire all
             dict(name="C01_heap_perm", consts=ec.consts({11, 12, 13, 14, 15, 16, 17, 18}, {"add", "del", "loop", "flags", "heappat"}, 10,
                                                         durs=(1, 2, 3, 10, 11, 12, 20, 21), nx=8, maxiter=12),
